@@ -144,11 +144,10 @@ Lemma blocks_descs_ok : forall bl i,
   blocks_ok i bl -> N.of_nat (length bl) + i <= 4294967296 -> descs_ok i (map bw_desc bl).
 Proof.
   induction bl as [|b bl IH]; intros i Hok Hb; [exact I|].
-  destruct Hok as (Rb & Hne & Hid & Hok). cbn [map descs_ok length] in *. repeat split.
-  - apply reach_desc_wf; [exact Rb|lia].
-  - destruct (reach_desc _ Rb) as [_ He]. rewrite He. unfold lenN. destruct (bw_abs b); [contradiction|cbn; lia].
-  - exact Hid.
-  - apply IH; [exact Hok|lia].
+  destruct Hok as (Rb & Hne & Hid & Hok). cbn [map descs_ok length] in *.
+  split; [apply reach_desc_wf; [exact Rb|lia]|].
+  split; [destruct (reach_desc _ Rb) as [_ He]; rewrite He; unfold lenN; destruct (bw_abs b); [contradiction|cbn [length]; lia]|].
+  split; [exact Hid|]. apply IH; [exact Hok|lia].
 Qed.
 
 Lemma blocks_ok_app : forall a i b,
@@ -200,4 +199,284 @@ Proof.
   cbn [bind]. apply blocks_elems_spec. intros b Hb.
   destruct (blocks_ok_forall _ _ _ (io_blocks _ Hok) Hb). split; [assumption|]. split; [assumption|].
   apply (st_blocks _ _ Hst). exact Hb.
+Qed.
+
+(* ------------------------------------------------------------------ *)
+(* indexWriter                                                          *)
+
+Definition iw_abs (w : iwriter) (pre : list bwriter) : list N :=
+  iabs (pre ++ iw_frozen w) ++ bw_abs (iw_bw w).
+
+(* [pre]: the blocks that stay in the store untouched (iw_base holds their descriptors) *)
+Record iwrepr (w : iwriter) (pre : list bwriter) : Prop := mkIwrepr {
+  iwr_base : iw_base w = map bw_desc pre;
+  iwr_blocks : blocks_ok 0 (pre ++ iw_frozen w);
+  iwr_reach : bw_reach (iw_bw w);
+  iwr_id : d_id (bw_desc (iw_bw w)) = N.of_nat (length (pre ++ iw_frozen w));
+  iwr_empty : bw_abs (iw_bw w) = [] -> pre = [] /\ iw_frozen w = [];
+  iwr_asc : asc 0 (iw_abs w pre);
+  iwr_last : iw_last w = last (iw_abs w pre) 0 }.
+
+Lemma iabs_app a b : iabs (a ++ b) = iabs a ++ iabs b.
+Proof. unfold iabs. rewrite map_app, concat_app. reflexivity. Qed.
+
+Lemma fresh_abs id0 : bw_abs (mkBW (mkDesc 0 0 id0) [] []) = [].
+Proof. rewrite (bw_abs_spec _ _ _ (wrepr_new id0)). reflexivity. Qed.
+
+Lemma full_nonempty b : bw_reach b -> bw_estimate_full b = true -> bw_abs b <> [].
+Proof.
+  intros Rb Hf. destruct (reach_repr _ Rb) as (full & cur & W). rewrite (bw_abs_spec _ _ _ W). intros He.
+  unfold elems_of in He. apply app_eq_nil in He. destruct He as [_ ->].
+  pose proof (wr_curnil _ _ _ W eq_refl) as ->. unfold bw_estimate_full in Hf. rewrite (wr_data _ _ _ W) in Hf. discriminate.
+Qed.
+
+Lemma last_app_nonnil (a b : list N) d : b <> [] -> last (a ++ b) d = last b d.
+Proof. apply last_app_ne. Qed.
+
+Theorem iw_append_spec w pre id :
+  iwrepr w pre -> id < two64 -> N.of_nat (length (pre ++ iw_frozen w)) + 2 < 4294967296 ->
+  (id <= last (iw_abs w pre) 0 -> iw_append w id = Err EAppendOrder) /\
+  (last (iw_abs w pre) 0 < id ->
+   exists w', iw_append w id = Ok w' /\ iwrepr w' pre /\ iw_abs w' pre = iw_abs w pre ++ [id] /\
+              (length (pre ++ iw_frozen w') <= S (length (pre ++ iw_frozen w)))%nat).
+Proof.
+  intros I Hid Hcnt. unfold iw_append. rewrite (iwr_last _ _ I). split.
+  - intros Hle. replace (id <=? last (iw_abs w pre) 0) with true by (symmetry; apply N.leb_le; exact Hle). reflexivity.
+  - intros Hlt. replace (id <=? last (iw_abs w pre) 0) with false by (symmetry; apply N.leb_gt; exact Hlt).
+    assert (Hnz : id <> 0) by lia.
+    pose proof (iwr_asc _ _ I) as Hasc.
+    assert (Hasc' : asc 0 (iw_abs w pre ++ [id])) by (apply asc_app; split; [exact Hasc|cbn [asc]; auto]).
+    destruct (bw_estimate_full (iw_bw w)) eqn:Ef.
+    + (* rotate *)
+      set (nid := (d_id (bw_desc (iw_bw w)) + 1) mod 4294967296).
+      assert (Hnid : nid = N.of_nat (length (pre ++ iw_frozen w ++ [iw_bw w]))).
+      { unfold nid. rewrite (iwr_id _ _ I), N.mod_small by lia. rewrite !app_length. cbn [length]. lia. }
+      cbn [iw_bw iw_base iw_frozen iw_last].
+      pose proof (reach_new nid) as Rn.
+      destruct (append_guard _ id Rn Hid eq_refl) as [[_ Hex] _].
+      destruct Hex as [b' Hb']; [rewrite fresh_abs; cbn [last]; split; [exact Hnz|lia]|].
+      rewrite Hb'. cbn [bind].
+      pose proof (append_abs _ _ _ Rn Hid eq_refl Hb') as Habs. rewrite fresh_abs in Habs. cbn [app] in Habs.
+      pose proof (full_nonempty _ (iwr_reach _ _ I) Ef) as Hbne.
+      eexists. split; [reflexivity|]. split; [|split].
+      * constructor; cbn [iw_base iw_frozen iw_bw iw_last].
+        -- exact (iwr_base _ _ I).
+        -- rewrite app_assoc. apply blocks_ok_app. split; [exact (iwr_blocks _ _ I)|].
+           cbn [blocks_ok]. split; [exact (iwr_reach _ _ I)|]. split; [exact Hbne|]. split; [|exact Logic.I].
+           rewrite (iwr_id _ _ I). lia.
+        -- eapply reach_append; eauto.
+        -- assert (Hd : d_id (bw_desc b') = nid).
+           { unfold bw_append in Hb'. cbn [bw_desc d_max d_entries d_id bw_restarts bw_data] in Hb'.
+             destruct (id =? 0); [discriminate|]. destruct (id <=? 0); [discriminate|].
+             change (0 mod 256 =? 0) with true in Hb'. cbv iota in Hb'. inversion Hb'. reflexivity. }
+           rewrite Hd. exact Hnid.
+        -- rewrite Habs. discriminate.
+        -- unfold iw_abs. cbn [iw_frozen iw_bw]. rewrite Habs, app_assoc, iabs_app.
+           unfold iabs at 2. cbn [map concat]. rewrite app_nil_r. exact Hasc'.
+        -- unfold iw_abs. cbn [iw_frozen iw_bw]. rewrite Habs. symmetry. apply last_snoc.
+      * unfold iw_abs. cbn [iw_frozen iw_bw]. rewrite Habs, app_assoc, iabs_app.
+        unfold iabs at 2. cbn [map concat]. rewrite app_nil_r. reflexivity.
+      * cbn [iw_frozen]. rewrite !app_length. cbn [length]. lia.
+    + (* append to the live block *)
+      assert (Hl : last (bw_abs (iw_bw w)) 0 < id).
+      { destruct (bw_abs (iw_bw w)) eqn:Ea.
+        - cbn [last]. lia.
+        - unfold iw_abs in Hlt. rewrite Ea in Hlt. rewrite last_app_nonnil in Hlt by discriminate. exact Hlt. }
+      destruct (append_guard _ id (iwr_reach _ _ I) Hid Ef) as [[_ Hex] _].
+      destruct Hex as [b' Hb']; [split; assumption|]. rewrite Hb'. cbn [bind].
+      pose proof (append_abs _ _ _ (iwr_reach _ _ I) Hid Ef Hb') as Habs.
+      eexists. split; [reflexivity|]. split; [|split].
+      * constructor; cbn [iw_base iw_frozen iw_bw iw_last].
+        -- exact (iwr_base _ _ I).
+        -- exact (iwr_blocks _ _ I).
+        -- eapply reach_append; eauto. exact (iwr_reach _ _ I).
+        -- assert (Hd : d_id (bw_desc b') = d_id (bw_desc (iw_bw w))).
+           { unfold bw_append in Hb'. destruct (id =? 0); [discriminate|]. destruct (id <=? _); [discriminate|].
+             destruct (_ mod 256 =? 0); inversion Hb'; reflexivity. }
+           rewrite Hd. exact (iwr_id _ _ I).
+        -- rewrite Habs. intros H. destruct (bw_abs (iw_bw w)); discriminate.
+        -- unfold iw_abs. cbn [iw_frozen iw_bw]. rewrite Habs, app_assoc. exact Hasc'.
+        -- unfold iw_abs. cbn [iw_frozen iw_bw]. rewrite Habs, app_assoc. symmetry. apply last_snoc.
+      * unfold iw_abs. cbn [iw_frozen iw_bw]. rewrite Habs, app_assoc. reflexivity.
+      * cbn [iw_frozen]. lia.
+Qed.
+
+(* ---- opening a writer on a stored index ---- *)
+Lemma iabs_snoc pre b : iabs (pre ++ [b]) = iabs pre ++ bw_abs b.
+Proof. rewrite iabs_app. unfold iabs at 2. cbn [map concat]. rewrite app_nil_r. reflexivity. Qed.
+
+Lemma last_opt_snoc {A} (l : list A) x : last_opt (l ++ [x]) = Some x.
+Proof.
+  unfold last_opt. destruct (l ++ [x]) eqn:E; [destruct l; discriminate|]. rewrite <- E.
+  rewrite app_length. cbn [length]. rewrite nth_error_app2 by lia.
+  replace (length l + 1 - 1 - length l)%nat with 0%nat by lia. reflexivity.
+Qed.
+
+Lemma trim_descs_noop (dl : list desc) d limit :
+  d_max d <= limit -> trim_descs (length (dl ++ [d]) - 1) (dl ++ [d]) limit = Ok (dl ++ [d]).
+Proof.
+  intros Hle. rewrite app_length. cbn [length]. replace (length dl + 1 - 1)%nat with (length dl) by lia.
+  destruct (length dl) eqn:El; [reflexivity|]. cbn [trim_descs]. rewrite <- El.
+  rewrite nth_error_app2 by lia. rewrite Nat.sub_diag. cbn [nth_error].
+  replace (limit <? d_max d) with false by (symmetry; apply N.ltb_ge; exact Hle). reflexivity.
+Qed.
+
+Lemma open_last_spec db pre bL limit :
+  iok (pre ++ [bL]) -> stored db (pre ++ [bL]) -> last (iabs (pre ++ [bL])) 0 <= limit ->
+  open_last db limit = Ok (map bw_desc pre, bL).
+Proof.
+  intros Hok Hst Hl. unfold open_last. rewrite (st_meta _ _ Hst).
+  pose proof (io_count _ Hok) as Hc.
+  rewrite parse_index_round; [|destruct pre; discriminate|apply blocks_descs_ok; [exact (io_blocks _ Hok)|lia]|rewrite map_length; lia].
+  cbn [bind]. rewrite map_app. cbn [map].
+  pose proof (io_blocks _ Hok) as Hb. apply blocks_ok_app in Hb. destruct Hb as [_ Hb]. cbn [blocks_ok] in Hb.
+  destruct Hb as (Rb & Hne & _ & _).
+  assert (HlastL : last (iabs (pre ++ [bL])) 0 = last (bw_abs bL) 0).
+  { rewrite iabs_snoc. apply last_app_ne. exact Hne. }
+  destruct (reach_desc _ Rb) as [Hmax _].
+  rewrite trim_descs_noop by (rewrite Hmax, <- HlastL; exact Hl). cbn [bind].
+  rewrite last_opt_snoc, removelast_snoc.
+  rewrite (st_blocks _ _ Hst bL) by (apply in_or_app; right; left; reflexivity).
+  destruct (finish_parse bL limit Rb Hne) as [_ Hre]; [rewrite <- HlastL; exact Hl|].
+  rewrite Hre. reflexivity.
+Qed.
+
+Lemma meta_nonempty (bl : list bwriter) : bl <> [] -> flat_map desc_encode (map bw_desc bl) <> [].
+Proof.
+  intros Hne H. apply (f_equal (@length N)) in H. rewrite flat_desc_len, map_length in H.
+  destruct bl; [contradiction|cbn in H; lia].
+Qed.
+
+Theorem new_index_writer_spec db bl limit :
+  iok bl -> stored db bl -> last (iabs bl) 0 <= limit ->
+  exists w pre, new_index_writer db limit = Ok w /\ iwrepr w pre /\ iw_abs w pre = iabs bl /\
+                iw_frozen w = [] /\ (forall b, In b pre -> In b bl) /\
+                (length (pre ++ iw_frozen w) <= length bl)%nat.
+Proof.
+  intros Hok Hst Hl. unfold new_index_writer.
+  destruct (snoc_cases bl) as [->|(pre & bL & ->)].
+  - rewrite (st_meta _ _ Hst). cbn [map flat_map].
+    exists (mkIW [] [] (mkBW (mkDesc 0 0 0) [] []) 0), []. split; [reflexivity|]. split; [|repeat split; auto].
+    + constructor; cbn [iw_base iw_frozen iw_bw iw_last app]; auto; try exact Logic.I; try apply reach_new;
+        unfold iw_abs; cbn [iw_frozen iw_bw app]; rewrite ?fresh_abs; try reflexivity; exact Logic.I.
+  - pose proof (meta_nonempty (pre ++ [bL]) (snoc_ne _ _)) as Hmn.
+    rewrite (st_meta _ _ Hst). destruct (flat_map desc_encode (map bw_desc (pre ++ [bL]))) eqn:Ef; [contradiction|].
+    rewrite (open_last_spec db pre bL limit Hok Hst Hl). cbn [bind fst snd].
+    pose proof (io_blocks _ Hok) as Hb. apply blocks_ok_app in Hb. destruct Hb as [Hbp Hb]. cbn [blocks_ok] in Hb.
+    destruct Hb as (Rb & Hne & Hidb & _).
+    exists (mkIW (map bw_desc pre) [] bL (bw_last bL)), pre. split; [reflexivity|].
+    assert (Habs : iw_abs (mkIW (map bw_desc pre) [] bL (bw_last bL)) pre = iabs (pre ++ [bL])).
+    { unfold iw_abs. cbn [iw_frozen iw_bw]. rewrite app_nil_r, iabs_snoc. reflexivity. }
+    split; [|split; [exact Habs|split; [reflexivity|split]]].
+    + constructor; cbn [iw_base iw_frozen iw_bw iw_last]; rewrite ?app_nil_r; auto.
+      * intros H. contradiction.
+      * rewrite Habs. exact (io_asc _ Hok).
+      * rewrite Habs, iabs_snoc, last_app_ne by exact Hne.
+        destruct (reach_desc _ Rb) as [Hmax Hent]. unfold bw_last, bw_empty. rewrite Hent, Hmax.
+        destruct (bw_abs bL); [contradiction|]. reflexivity.
+    + intros b Hb'. apply in_or_app. left. exact Hb'.
+    + cbn [iw_frozen]. rewrite !app_length. cbn [length]. lia.
+Qed.
+
+(* ---- finish: what the store holds afterwards ---- *)
+Lemma fold_put_other ws : forall bs id,
+  (forall b, In b ws -> d_id (bw_desc b) <> id) ->
+  blk_get (fold_left (fun bs b => blk_put bs (d_id (bw_desc b)) (bw_finish b)) ws bs) id = blk_get bs id.
+Proof.
+  induction ws as [|w ws IH]; intros bs id H; [reflexivity|]. cbn [fold_left].
+  rewrite IH by (intros b Hb; apply H; right; exact Hb).
+  apply blk_get_put_other. intros Heq. apply (H w (or_introl eq_refl)). symmetry. exact Heq.
+Qed.
+
+Lemma fold_put_in ws : forall i bs b,
+  blocks_ok i ws -> In b ws ->
+  blk_get (fold_left (fun bs b => blk_put bs (d_id (bw_desc b)) (bw_finish b)) ws bs) (d_id (bw_desc b)) = bw_finish b.
+Proof.
+  induction ws as [|w ws IH]; intros i bs b Hok Hin; [destruct Hin|].
+  destruct Hok as (_ & _ & Hid & Hok). cbn [fold_left]. destruct Hin as [<-|Hin].
+  - rewrite fold_put_other; [apply blk_get_put_same|].
+    intros b Hb. pose proof (blocks_ok_id _ _ _ Hok Hb). lia.
+  - exact (IH _ _ _ Hok Hin).
+Qed.
+
+Theorem iw_finish_spec w pre db :
+  iwrepr w pre -> bw_abs (iw_bw w) <> [] ->
+  (forall b, In b pre -> blk_get (db_blocks db) (d_id (bw_desc b)) = bw_finish b) ->
+  N.of_nat (length (pre ++ iw_frozen w)) + 1 < 4294967296 ->
+  let bl := pre ++ iw_frozen w ++ [iw_bw w] in
+  stored (iw_finish w db) bl /\ iok bl /\ iabs bl = iw_abs w pre.
+Proof.
+  intros I Hne Hpre Hcnt bl.
+  assert (Hemp : bw_empty (iw_bw w) = false).
+  { unfold bw_empty. destruct (reach_desc _ (iwr_reach _ _ I)) as [_ He]. rewrite He. unfold lenN.
+    destruct (bw_abs (iw_bw w)); [contradiction|]. apply N.eqb_neq. cbn [length]. lia. }
+  assert (Hbl : blocks_ok 0 bl).
+  { unfold bl. rewrite app_assoc. apply blocks_ok_app. split; [exact (iwr_blocks _ _ I)|].
+    cbn [blocks_ok]. split; [exact (iwr_reach _ _ I)|]. split; [exact Hne|]. split; [|exact Logic.I].
+    rewrite (iwr_id _ _ I). lia. }
+  assert (Habs : iabs bl = iw_abs w pre).
+  { unfold bl, iw_abs. rewrite app_assoc, iabs_snoc. reflexivity. }
+  split; [|split; [|exact Habs]].
+  - unfold iw_finish. rewrite Hemp.
+    rewrite match_ne by apply snoc_ne.
+    constructor; cbn [db_meta db_blocks].
+    + rewrite (iwr_base _ _ I), <- map_app. reflexivity.
+    + intros b Hb. unfold bl in Hb. apply in_app_or in Hb.
+      apply blocks_ok_app in Hbl. destruct Hbl as [Hp Hws]. destruct Hb as [Hb|Hb].
+      * rewrite fold_put_other; [exact (Hpre b Hb)|].
+        intros b' Hb'. pose proof (blocks_ok_id _ _ _ Hws Hb'). pose proof (blocks_ok_id _ _ _ Hp Hb). lia.
+      * eapply fold_put_in; eauto.
+  - constructor; [exact Hbl|rewrite Habs; exact (iwr_asc _ _ I)|].
+    unfold bl. rewrite app_assoc, app_length. cbn [length]. lia.
+Qed.
+
+(* ---- a whole writer session: open, append ids, finish ---- *)
+Fixpoint iw_appends (w : iwriter) (ids : list N) : res iwriter :=
+  match ids with
+  | [] => Ok w
+  | id :: r => do w' <- iw_append w id; iw_appends w' r
+  end.
+
+Lemma iw_appends_spec : forall ids w pre,
+  iwrepr w pre -> asc (last (iw_abs w pre) 0) ids ->
+  N.of_nat (length (pre ++ iw_frozen w)) + N.of_nat (length ids) + 2 < 4294967296 ->
+  exists w', iw_appends w ids = Ok w' /\ iwrepr w' pre /\ iw_abs w' pre = iw_abs w pre ++ ids /\
+             (length (pre ++ iw_frozen w') <= length (pre ++ iw_frozen w) + length ids)%nat.
+Proof.
+  induction ids as [|id ids IH]; intros w pre I Ha Hc.
+  - exists w. split; [reflexivity|]. split; [exact I|]. split; [rewrite app_nil_r; reflexivity|]. cbn [length]. lia.
+  - destruct Ha as (H1 & H2 & H3). cbn [length] in Hc.
+    destruct (iw_append_spec w pre id I H2 ltac:(lia)) as [_ Hok].
+    destruct (Hok H1) as (w1 & Hw1 & I1 & Habs1 & Hlen1). cbn [iw_appends]. rewrite Hw1. cbn [bind].
+    destruct (IH w1 pre I1) as (w' & Hw' & I' & Habs' & Hlen').
+    + rewrite Habs1, last_snoc. exact H3.
+    + lia.
+    + exists w'. split; [exact Hw'|]. split; [exact I'|]. split; [rewrite Habs', Habs1, <- app_assoc; reflexivity|].
+      cbn [length]. lia.
+Qed.
+
+Theorem writer_session db bl limit ids :
+  iok bl -> stored db bl -> last (iabs bl) 0 <= limit ->
+  ids <> [] -> asc (last (iabs bl) 0) ids ->
+  N.of_nat (length bl) + N.of_nat (length ids) + 2 < 4294967296 ->
+  exists w w' bl',
+    new_index_writer db limit = Ok w /\ iw_appends w ids = Ok w' /\
+    stored (iw_finish w' db) bl' /\ iok bl' /\ iabs bl' = iabs bl ++ ids /\
+    db_abs (iw_finish w' db) = Ok (iabs bl ++ ids).
+Proof.
+  intros Hok Hst Hl Hne Ha Hc.
+  destruct (new_index_writer_spec db bl limit Hok Hst Hl) as (w & pre & Hw & I & Habs & Hfr & Hpre & Hlen).
+  destruct (iw_appends_spec ids w pre I) as (w' & Hw' & I' & Habs' & Hlen').
+  - rewrite Habs. exact Ha.
+  - lia.
+  - assert (Hbne : bw_abs (iw_bw w') <> []).
+    { intros He. destruct (iwr_empty _ _ I' He) as [-> Hf']. unfold iw_abs in Habs'. rewrite Hf', He in Habs'.
+      cbn [app iabs map concat] in Habs'. symmetry in Habs'. apply app_eq_nil in Habs'. destruct Habs' as [_ Hi]. contradiction. }
+    destruct (iw_finish_spec w' pre db I' Hbne) as (Hst' & Hok' & Habs'').
+    + intros b Hb. apply (st_blocks _ _ Hst). apply Hpre. exact Hb.
+    + lia.
+    + exists w, w', (pre ++ iw_frozen w' ++ [iw_bw w']). split; [exact Hw|]. split; [exact Hw'|].
+      split; [exact Hst'|]. split; [exact Hok'|].
+      assert (Hfin : iabs (pre ++ iw_frozen w' ++ [iw_bw w']) = iabs bl ++ ids) by (rewrite Habs'', Habs', Habs; reflexivity).
+      split; [exact Hfin|]. rewrite (db_abs_spec _ _ Hok' Hst'), Hfin. reflexivity.
 Qed.
